@@ -882,7 +882,9 @@ def gen_neldermead(ctx, cases, n_cases):
             n, kind = len(c), ("fixed" if it + len(fixed) < 2 else "fixed-witness")
         An, cn = np.array(A, dtype=np.float64).reshape(n, n), np.array(c, dtype=np.float64)
         x0n = np.array(x0, dtype=np.float64)
-        bn = np.array(bounds, dtype=np.float64) if bounds is not None else np.array([[], []]).T
+        # no bounds: shape (0, 2), C-contiguous like the bounded case (one Numba specialisation of the whole routine
+        # instead of two; the default-style `np.array([[], []]).T` and the omitted argument rotate in gen_hardening)
+        bn = np.array(bounds, dtype=np.float64) if bounds is not None else np.empty((0, 2))
         frozen_in = [v.tobytes() for v in (x0n, bn, An, cn)]
         res = nelder_mead(_quad, x0n, bounds=bn, args=(An, cn, k), tol_f=tol_f, tol_x=tol_x, max_iter=max_iter)
         if [v.tobytes() for v in (x0n, bn, An, cn)] != frozen_in:
@@ -1142,9 +1144,12 @@ def gen_hardening(ctx, cases):
     # ---------------- (3) argument forms of the scalar routines ----------------
     forms = list(SCALAR_FORMS)
     if not ctx.thorough:
-        forms = [rng.choice(forms[:2])] + rng.sample(forms[2:], 1)
+        forms = [rng.choice(forms)]          # each type recompiles all six routines: one per quick run, all in thorough
     for label, cv in forms:
-        for name, (call, line) in scalar_calls(cv).items():
+        todo = list(scalar_calls(cv).items())
+        if not ctx.thorough:
+            todo = rng.sample(todo, 3)           # three of the six routines per quick run
+        for name, (call, line) in todo:
             out = run_scalar(name, call)
             ctx.count("forms:scalar:" + label)
             if out == "NOT-ACCEPTED":
@@ -1185,7 +1190,9 @@ def gen_hardening(ctx, cases):
         ("secant", "args omitted", lambda: newton_secant(_p3, 1.0, tol=TOL, maxiter=50, disp=True)),
         ("brentmax", "args omitted", lambda: brent_max(_hump, 0.0, 1.0, xtol=TOL, maxiter=100)),
     ]
-    variants += noargs if ctx.thorough else rng.sample(noargs, 2)
+    if not ctx.thorough:
+        variants = rng.sample(variants, 2)
+    variants += noargs if ctx.thorough else rng.sample(noargs, 1)
     for name, tag, call in variants:
         out = run_scalar(name, call)
         ctx.count("forms:variant")
@@ -1207,7 +1214,7 @@ def gen_hardening(ctx, cases):
         ("secant", lambda: newton_secant(_f1, 1.0, args=a0), lambda: newton_secant(_f1, 1.0, a0, 1.48e-8, 50, True)),
         ("brentmax", lambda: brent_max(_f1, 0.0, 1.0, args=ah), lambda: brent_max(_f1, 0.0, 1.0, ah, 1e-5, 500)),
     ]
-    for name, c1, c2 in (defaults if ctx.thorough else rng.sample(defaults, 2)):
+    for name, c1, c2 in (defaults if ctx.thorough else rng.sample(defaults, 1)):
         o1, o2 = run_scalar(name, c1), run_scalar(name, c2)
         ctx.count("forms:defaults")
         if o1 != o2 or o1.startswith("ERR"):
@@ -1215,11 +1222,13 @@ def gen_hardening(ctx, cases):
                           {"op": name, "omitted": o1, "explicit": o2})
     # explicit zeros / boundary values of the tolerances and counters
     zeros = [("0", 0), ("0.0", 0.0), ("-0.0", -0.0), ("float32 0", np.float32(0)), ("False", False)]
-    for zl, z in (zeros if ctx.thorough else [zeros[1]] + rng.sample(zeros, 1)):
+    typed_zero = rng.choice(zeros)
+    for zl, z in (zeros if ctx.thorough else [zeros[1], typed_zero]):
         zc = [("bisect", lambda: bisect(_f1, 0.0, 1.0, args=a0, xtol=z)), ("brentq", lambda: brentq(_f1, 0.0, 1.0, args=a0, xtol=z)),
               ("newton", lambda: newton(_g0, 1.0, _g1, args=args3, tol=z)), ("halley", lambda: newton_halley(_g0, 1.0, _g1, _g2, args=args3, tol=z)),
               ("secant", lambda: newton_secant(_f1, 1.0, args=a0, tol=z))]
-        for name, call in (zc if ctx.thorough else rng.sample(zc, 2)):
+        # a float zero needs no recompilation (all five routines); another zero type: one routine per quick run
+        for name, call in (zc if (ctx.thorough or zl == "0.0") else rng.sample(zc, 1)):
             out = run_scalar(name, call)
             ctx.count("forms:zero-tolerance")
             if out not in ("ERR:ValueError", "NOT-ACCEPTED"):
@@ -1243,7 +1252,8 @@ def gen_hardening(ctx, cases):
             ctx.spec_fail("history_not_a_function", "%s: repeated call with identical arguments gives %s, first call gave %s" % (name, out, canon[name]),
                           {"op": name, "first": canon[name], "again": out})
         # interleave a call of another specialisation (integer arguments) in between
-        run_scalar(name, scalar_calls(int)[name][0])
+        if ctx.thorough:
+            run_scalar(name, scalar_calls(int)[name][0])
     rejudge("interleaved repeats")
 
     # ---------------- nelder_mead: forms, histories, aliasing ----------------
@@ -1287,7 +1297,7 @@ def gen_hardening(ctx, cases):
     keep("nelder_mead canonical", nm_canon, rc)
     nm_alias("canonical", rc, nm_given())
     cases.append(Case(nm_line(bnd, 1e-10, 1e-10, 1000), nm_canon, tag="forms"))
-    ru = nelder_mead(_quad, x0, bounds=np.array([[], []]).T, args=(A, cvec, 0.0), tol_f=1e-10, tol_x=1e-10, max_iter=1000)
+    ru = nelder_mead(_quad, x0, bounds=np.empty((0, 2)), args=(A, cvec, 0.0), tol_f=1e-10, tol_x=1e-10, max_iter=1000)
     nm_canon_u = nm_str(ru)
     keep("nelder_mead canonical, no bounds", nm_canon_u, ru)
     nm_alias("canonical no bounds", ru, nm_given())
@@ -1311,12 +1321,16 @@ def gen_hardening(ctx, cases):
                                                                         tol_x=np.array(1e-10), max_iter=np.int32(1000)), nm_canon),
         ("max_iter float", lambda: nelder_mead(_quad, x0, bounds=bnd, args=(A, cvec, 0.0), max_iter=1000.0), nm_canon),
         ("bounds and tolerances omitted", lambda: nelder_mead(_quad, x0, args=(A, cvec, 0.0)), nm_canon_u),
+        ("bounds = np.array([[], []]).T (the default's own form)",
+         lambda: nelder_mead(_quad, x0, bounds=np.array([[], []]).T, args=(A, cvec, 0.0), tol_f=1e-10, tol_x=1e-10, max_iter=1000), nm_canon_u),
         ("x0 list", lambda: nelder_mead(_quad, [2.0, 1.0], bounds=bnd, args=(A, cvec, 0.0)), nm_canon),
         ("x0 tuple", lambda: nelder_mead(_quad, (2.0, 1.0), bounds=bnd, args=(A, cvec, 0.0)), nm_canon),
     ]
     # quick tier: the positional form and the refused forms always, one recompiling form in two runs out of three
-    chosen = nm_forms if ctx.thorough else ([nm_forms[9]] + rng.sample(nm_forms[:9] + nm_forms[10:13], 1 if rng.random() < 0.67 else 0)
-                                            + nm_forms[13:])
+    # (every form but the positional one recompiles the whole routine: 3 s for an x0 form, 6-8 s for the others)
+    slot = rng.randrange(10)
+    extra = rng.sample(nm_forms[:4], 1) if slot == 0 else rng.sample(nm_forms[4:9] + nm_forms[10:14], 1) if slot == 1 else []
+    chosen = nm_forms if ctx.thorough else ([nm_forms[9]] + extra + nm_forms[14:])
     for label, call, want in chosen:
         err, r = guarded(call)
         ctx.count("forms:nm:" + label)
@@ -1336,7 +1350,7 @@ def gen_hardening(ctx, cases):
     init_forms = [("int64", x0.astype(np.int64)), ("int8", x0.astype(np.int8)), ("uint16", x0.astype(np.uint16)),
                   ("float32", x0.astype(np.float32)), ("strided", np.array([2.0, 9.0, 1.0, 9.0])[::2]),
                   ("reversed", np.array([1.0, 2.0])[::-1]), ("bounds F/int", x0)]
-    for label, xform in init_forms:
+    for label, xform in (init_forms if ctx.thorough else [init_forms[0]] + rng.sample(init_forms[1:], 1)):
         b_ = np.asfortranarray(bnd.astype(np.int64)) if label == "bounds F/int" else bnd
         got = nm_mod._initialize_simplex(xform, b_)
         ctx.count("forms:init-simplex:" + label)
@@ -1370,8 +1384,8 @@ def gen_hardening(ctx, cases):
         ctx.spec_fail("input_mutated", "nelder_mead modified one of x0 / bounds / args", {"op": "nelder_mead"})
     # _nelder_mead_algorithm: `vertices` is documented as modified in place — model that explicitly: the returned
     # final_simplex IS the caller's array, the caller's array holds the final simplex, nothing else is touched
-    if not ctx.thorough and rng.random() < 0.75:
-        return                   # a separate compilation of the whole routine: one quick run in four, every thorough run
+    if not ctx.thorough and slot != 2:
+        return                   # a separate compilation of the whole routine: one quick run in ten, every thorough run
     V0 = np.array([[2.0, 1.0], [2.1, 1.0], [2.0, 1.05]])
     V = V0.copy()
     ra = nm_mod._nelder_mead_algorithm(_quad, V, bnd, args=(A, cvec, 0.0), tol_f=1e-10, tol_x=1e-10, max_iter=1000)
